@@ -1,6 +1,9 @@
 package synth
 
-import "fmt"
+import (
+	"fmt"
+	"strings"
+)
 
 // addSQLFeatures adds what the SQL side looks at: id fields, foreign keys by ID type and by tag,
 // guards, nullable wrappers, and `gomacro:SQL` / `gomacro:QUERY` comment directives.
@@ -111,6 +114,22 @@ func addSQLFeatures(g *gen) {
 			c := pick(g.rng, cols)
 			s.Doc = append(s.Doc, fmt.Sprintf(" gomacro:SQL ADD UNIQUE(%s)", c))
 			g.c.AddFeat("sql:unique")
+		}
+		// a guard column named in a key or uniqueness directive, before a regular column
+		guardCol := ""
+		for _, f := range s.Fields {
+			if strings.Contains(f.Tag, "gomacro-sql-guard") {
+				guardCol = f.Name
+			}
+		}
+		if guardCol != "" && len(cols) > 0 && g.chance(0.6) {
+			c := pick(g.rng, cols)
+			if g.chance(0.5) {
+				s.Doc = append(s.Doc, fmt.Sprintf(" gomacro:SQL _SELECT KEY (%s, %s)", guardCol, c))
+			} else {
+				s.Doc = append(s.Doc, fmt.Sprintf(" gomacro:SQL ADD UNIQUE(%s, %s)", guardCol, c))
+			}
+			g.c.AddFeat("sql:guard-in-key-directive")
 		}
 		// the same directive text on several tables of the file (every table has an Id column)
 		if g.chance(0.35) {
